@@ -65,6 +65,7 @@ type fnCtx struct {
 	preHeaps     bool
 	oldWrites    map[string]bool
 	locals       map[string]Val
+	localIsAddr  map[string]bool
 	globalVals map[*ssa.Global]Val
 	globalSyms map[string]*ssa.Global
 }
@@ -439,6 +440,11 @@ func (fc *fnCtx) run() {
 		fc.params[fv.Name()] = v
 		fc.assume(st, fc.valInv(st, fv.Type(), sym))
 		fc.assume(st, Not(Eq(sym, "nilR")))
+	}
+	if fc.con != nil {
+		for _, gs := range fc.con.GhostSets {
+			st.heap[fc.ghostVar(gs.Name)] = "false"
+		}
 	}
 	fc.entry = st.clone()
 	fc.entry.heap = map[string]string{}
